@@ -227,7 +227,7 @@ pub fn fabricate(s: &Sealed, db: &Db, net: NetID, height: u64, extra_history: &[
         transactions: Default::default(),
         proposer_action: None,
     };
-    SealedState::from_block(&blk, &s.raw_stakes(), db)
+    SealedState::from_block(&blk, &fresh_stakes(s), db)
 }
 
 /// Same as `fabricate` but also overrides the scalar header fields.
@@ -237,7 +237,30 @@ pub fn fabricate_with(s: &Sealed, db: &Db, net: NetID, height: u64, fee_pool: u1
     blk.header.fee_pool = CoinValue(fee_pool);
     blk.header.fee_multiplier = fee_mult;
     blk.header.dosc_speed = dosc_speed;
-    SealedState::from_block(&blk, &s.raw_stakes(), db)
+    SealedState::from_block(&blk, &fresh_stakes(s), db)
+}
+
+
+/// What a node reads back after a stop: the block decoded from its serialised bytes and a stake set built anew from the
+/// persisted stake documents (not the in-memory `StakeSet` value of the running node, which could carry memoised state with it).
+pub fn persisted(s: &Sealed) -> (Block, tip911_stakeset::StakeSet) {
+    let bytes = stdcode::serialize(&s.to_block()).expect("block serialises");
+    let blk: Block = stdcode::deserialize(&bytes).expect("block deserialises");
+    let docs: Vec<(melstructs::TxHash, melstructs::StakeDoc)> = s.raw_stakes().iter().map(|(k, v)| (*k, *v)).collect();
+    let mut docs = docs;
+    docs.sort_by_key(|(k, _)| *k);
+    (blk, tip911_stakeset::StakeSet::new(docs.into_iter()))
+}
+
+/// to_block -> bytes -> from_block with a freshly built stake set, over the same content-addressed store.
+pub fn restart_from_disk(s: &Sealed) -> Sealed {
+    let db = s.raw_coins_smt().database();
+    let (blk, stakes) = persisted(s);
+    SealedState::from_block(&blk, &stakes, &db)
+}
+
+fn fresh_stakes(s: &Sealed) -> tip911_stakeset::StakeSet {
+    persisted(s).1
 }
 
 // ---------------------------------------------------------------------------------------------
